@@ -776,6 +776,26 @@ func (e *Engine) builtin(st *State, fr *Frame, dst *ssa.Call, b *ssa.Builtin, cc
 			}
 		}
 		set(acc)
+	case "clear":
+		// clear(slice) zeroes the elements, clear(map) removes all entries (slices.Delete zeroes the freed tail)
+		switch x := args[0].(type) {
+		case SliceVal:
+			if x.Obj != 0 && x.Len > 0 {
+				arr := st.heap[x.Obj].(ArrayVal)
+				ne := append([]Value(nil), arr.Elems...)
+				elemT := cc.Args[0].Type().Underlying().(*types.Slice).Elem()
+				for i := x.Off; i < x.Off+x.Len; i++ {
+					ne[i] = zeroValue(elemT)
+				}
+				st.heap[x.Obj] = ArrayVal{Elems: ne}
+			}
+		case MapVal:
+			if x.Obj != 0 {
+				st.heap[x.Obj] = &MapObj{}
+			}
+		default:
+			unsupported("clear of %T", x)
+		}
 	case "print", "println":
 	default:
 		unsupported("builtin %s", b.Name())
